@@ -484,3 +484,10 @@ def run(chk):
     limits.check_limits(chk, F)
     from . import weights
     chk.guard("R09.4", "weights", weights.check_weights, chk, F)
+    # R09.6: every limit comparison and weight formula reads Miniscript::script_size: it must be the length of the
+    # script the encoder emits (rules shared with C04)
+    from . import c04
+    from ..report import RuleAlias
+    chk.guard("R09.6", "script_size", c04.check_sizes_shared,
+              RuleAlias(chk, {"R04.1": "R09.6", "R04.2": "R09.6"}, "script_size, which the size limits and weight formulas "
+                                                                   "use, equals the encoded length"), F)
